@@ -332,8 +332,11 @@ ConvV(ds, O, fixed) ==
   LET rp == RelPass(ds, O, fixed)
       wp == FoldLeft(LAMBDA acc, w : acc \o WayResult(ds, O, rp.skip, w), rp.feats, ds.ways)
   IN FoldLeft(LAMBDA acc, n : acc \o NodeResult(ds, O, n), wp, ds.nodes)
-Conv(ds, O) == ConvV(ds, O, TRUE)           \* the tree as it is (with fix 626c4a8; FeatureID handling as is)
-ConvIdeal(ds, O) == Conv(Ideal(ds), O)      \* what it is meant to do for every id class
+\* Since fixes b715ff7 / 51b669e the tree no longer routes identity and membership through FeatureID: it behaves the
+\* same for every id class.  ConvFormer keeps the transcription of the tree before those fixes (KeyOf, PolyFeat).
+ConvFormer(ds, O) == ConvV(ds, O, TRUE)
+ConvIdeal(ds, O)  == ConvV(Ideal(ds), O, TRUE)
+Conv(ds, O)       == ConvIdeal(ds, O)        \* the tree as it is
 
 (* ======================================================================= *)
 (* Judge: the statement, over a feature list F for data set ds, options O  *)
@@ -483,8 +486,8 @@ OnlySharedOuterDuplicates(ds, F) ==
         /\ F[i].t = "way"
         /\ Cardinality({k \in DOMAIN ds.rels : F[i].id \in OldStyleOuterOf(ds, ds.rels[k])}) >= 2
 
-\* ---- known findings about ids that do not fit osm.FeatureID (negative, >= 2^40); see notes/C17.md.
-\* The Model (Conv) reproduces both; ConvIdeal does not have them.
+\* ---- known findings about ids that do not fit osm.FeatureID (negative, >= 2^40), fixed by b715ff7 / 51b669e;
+\* see notes/C17.md.  ConvFormer reproduces both; Conv (= ConvIdeal) does not have them.
 \* (a) polygon relation features get an empty type and the id modulo 2^40
 KF_PolygonIdentityViaFeatureID(ds) ==
   \E i \in DOMAIN ds.rels : IsPoly(ds.rels[i]) /\
